@@ -9,10 +9,10 @@ var profiles = map[string]*Profile{
 		W: map[string]int{"text": 5, "print": 7, "comment": 2, "marker": 1}},
 	"C02": {Name: "conditions", MaxDepth: 3, MaxItems: 5, CondHist: true,
 		W: map[string]int{"text": 1, "marker": 1, "print": 1, "if": 8, "ternary": 2, "switch": 4, "ifok": 2, "ctx": 2, "dyncond": 2, "ctxcmp": 2, "cloop": 2}},
-	"C03": {Name: "loops", MaxDepth: 3, MaxItems: 4,
-		W: map[string]int{"text": 3, "marker": 2, "print": 4, "cloop": 5, "rloop": 5, "if": 1, "pastprint": 2}},
+	"C03": {Name: "loops", MaxDepth: 3, MaxItems: 4, Includes: true,
+		W: map[string]int{"text": 3, "marker": 2, "print": 4, "cloop": 5, "rloop": 5, "if": 1, "pastprint": 2, "include": 1}},
 	"C11": {Name: "letters-and-chains", MaxDepth: 1, MaxItems: 5, Letters: true, Mods: true, PfxSfx: true, LongVals: 8,
-		W: map[string]int{"text": 1, "print": 9}},
+		W: map[string]int{"text": 1, "print": 9, "ctx": 2, "dynprint": 2, "qempty": 1}},
 	"C14": {Name: "loop-control", MaxDepth: 4, MaxItems: 3, BreakN: true, Includes: true,
 		W: map[string]int{"marker": 3, "print": 1, "cloop": 5, "rloop": 4, "if": 2, "break": 3, "lazybreak": 3, "continue": 2, "ifok": 2, "include": 2}},
 	"C15": {Name: "variables", MaxDepth: 2, MaxItems: 8, Mods: true, OKFlags: true, LongVals: 8,
@@ -56,7 +56,7 @@ func mergeResults(a, b *Result) *Result {
 }
 
 func init() {
-	for _, p := range []string{"C03", "C14", "C16", "ALL", "REGION", "C02", "C11", "C15"} {
+	for _, p := range []string{"C14", "C16", "ALL", "REGION", "C02", "C11", "C15"} {
 		p := p
 		runners[p] = func(o *Options) *Result {
 			return runInterp(o, p, profiles[p], 300, 6000, corrInterp)
@@ -76,6 +76,20 @@ func init() {
 		}
 		res.Rule += " || source clean-up: generated sources built from comment brackets, '#', braces, line breaks, tabs, blanks, \\r \\f \\v and tags, under both keep-format settings; the parser's cutComments/cutFmt (VerifPreprocess hook) against Model/Preproc.v byte for byte"
 		res.WriteReplays(o.Verif+"/evidence/replays", "C01")
+		return res
+	}
+	runners["C03"] = func(o *Options) *Result {
+		res := runInterp(o, "C03", profiles["C03"], 300, 6000, corrInterp)
+		if res.InfraError != "" || o.Replay != "" {
+			return res
+		}
+		n := 200
+		if o.Tier == "thorough" {
+			n = 5000
+		}
+		runCollections(res, NewRNG(o.Seed+303), n)
+		res.Rule += " || collections of other kinds: slices of numbers (also a named slice type), of structs, of pointers to structs and of strings, 0 to 5 elements, with and without key, separator and else, on a new and on a reset context, against the text computed from the data"
+		res.WriteReplays(o.Verif+"/evidence/replays", "C03")
 		return res
 	}
 	runners["C17"] = func(o *Options) *Result {
